@@ -56,6 +56,8 @@ class UserError(Exception):
 def weird_coercer(cls, data):
     if cls is int:
         # wrong-typed result: must end as ValidationError
+        if isinstance(data, int) and not isinstance(data, bool) and data.bit_length() > 2000:
+            return "x"  # (str() of a huge int would raise in this coercer itself: a user exception, exempt)
         return str(data) if isinstance(data, (int, float, str, bool, type(None))) else "x"
     if cls is bool:
         raise UserError("coercer says no")
@@ -113,7 +115,7 @@ def data_fn(draw, prog, t, opts):
 
 @st.composite
 def strategy_(draw, tier):
-    cfg = {"max_depth": 3 if tier == "quick" else 4, "generics": True, "std": True, "std_multi": True, "float_mult_of": True, "leaf_validators": True, "class_validators": True}
+    cfg = {"max_depth": 3 if tier == "quick" else 4, "generics": True, "std": True, "std_multi": True, "float_mult_of": True, "leaf_validators": True, "class_validators": True, "any_in_sets": True}
     case = draw(tdcase.td_cases(cfg, n_data=(4, 10), data_fn=data_fn))
     case["opts"]["coerce"] = pick(draw, [False, False, True, True, "weird", "unhashable"])
     case["opts"]["no_copy"] = draw(st.booleans())
@@ -129,12 +131,15 @@ describe = tdcase.describe
 
 
 def innermost_frame(exc) -> str:
-    tb = traceback.extract_tb(exc.__traceback__)
+    """file:qualified function of the innermost frame inside the apischema package."""
     last = None
-    for fr in tb:
-        fn = os.path.realpath(fr.filename)
+    tb = exc.__traceback__
+    while tb is not None:
+        code = tb.tb_frame.f_code
+        fn = os.path.realpath(code.co_filename)
         if fn.startswith(REPO_PREFIX):
-            last = f"{os.path.relpath(fn, REPO_PREFIX)}:{fr.name}"
+            last = f"{os.path.relpath(fn, REPO_PREFIX)}:{getattr(code, 'co_qualname', code.co_name)}"
+        tb = tb.tb_next
     return last or "<outside apischema>"
 
 
@@ -211,6 +216,8 @@ def _evaluate(case, ctx, b, prog, opts):
                 raise
             ctx.h("outcome:crash")
             sig = {"kind": "crash", "exc": type(e).__name__, "frame": innermost_frame(e)}
+            if isinstance(e, TypeError) and str(e).startswith("unhashable type"):
+                sig["unhashable"] = True
             if deep_n is not None and isinstance(e, RecursionError):
                 sig = {"kind": "crash", "exc": "RecursionError", "deep": True, "depth": deep_n}
             ctx.violation(sig, single, "".join(traceback.format_exception_only(type(e), e))[:300]
